@@ -445,7 +445,37 @@ func init() {
 				}
 				// uses of the fetched wrap as an append operand
 				appended := false
-				for _, ref := range refsOf(gv) {
+				// the fetched wrap itself, and phis that carry it or nil (the result of an expanded helper that
+				// answers nil for an empty or expired slot)
+				carriers := []ssa.Value{gv}
+				for i := 0; i < len(carriers) && i < 6; i++ {
+					for _, r := range refsOf(carriers[i]) {
+						ph, ok := r.(*ssa.Phi)
+						if !ok {
+							continue
+						}
+						only := true
+						for _, e := range ph.Edges {
+							if stripConv(e) != carriers[i] && !isNilConst(e) {
+								only = false
+							}
+						}
+						dup := false
+						for _, cv := range carriers {
+							if cv == ssa.Value(ph) {
+								dup = true
+							}
+						}
+						if only && !dup {
+							carriers = append(carriers, ph)
+						}
+					}
+				}
+				var allRefs []ssa.Instruction
+				for _, cv := range carriers {
+					allRefs = append(allRefs, refsOf(cv)...)
+				}
+				for _, ref := range allRefs {
 					var app *ssa.Call
 					switch x := ref.(type) {
 					case *ssa.Store: // storing into the varargs slice of append
